@@ -166,11 +166,16 @@ def run_cases(ck: Check, n: int):
         truth, cand = truth_and_candidate(rng, grid)
         vmin, vmax = rng.choice([(0.0, 1.0), (0.0, 1.0), (5.0, 6.0), (-1.0, 0.5), (0.2, 3.0)])
         img = truth.get_phase_field(grid, vmin=vmin, vmax=vmax)
-        mode = rng.choice(["clean", "noisy", "self"])
+        mode = rng.choice(["clean", "noisy", "self", "satellite"])
         if type(grid).__name__ == "CylindricalSymGrid" and grid.periodic[1]:
             mode = "self"
         if mode == "noisy":
             img.data += np.array([rng.gauss(0, 0.08 * (vmax - vmin)) for _ in range(img.data.size)]).reshape(img.data.shape)
+        elif mode == "satellite":
+            # a structured disturbance: a bump on the droplet's interface (large residuals in part of the fit region)
+            flat = img.data.reshape(-1)
+            order = np.argsort(np.abs(flat - (vmin + vmax) / 2))[: max(3, flat.size // 40)]
+            flat[order[: max(2, len(order) // 3)]] += 0.45 * (vmax - vmin)
         opt = rng.choice(["given", "none", "adjust-given", "adjust-none", "defaults"])
         kw = {"given": dict(vmin=vmin, vmax=vmax), "none": dict(vmin=None, vmax=None), "adjust-given": dict(vmin=vmin, vmax=vmax, adjust_values=True),
               "adjust-none": dict(vmin=None, vmax=None, adjust_values=True), "defaults": {}}[opt]
@@ -196,6 +201,14 @@ def run_cases(ck: Check, n: int):
         if status == "err":
             ck.fail(f"refine_droplet raised {out}", {**sig, "check": "refine_total", "error": out.split(':')[0]}, case)
             continue
+        # ---------------- refining the RESULT again (non-ideal images): the candidate is now close to the least-squares optimum,
+        # the squared deviation over its fit region still must not grow
+        if mode in ("noisy", "satellite") and i % 2 == 0:
+            st2, out2, rec2 = tapped_refine(img, out.copy(), **kw)
+            ck.count("second_refinement")
+            if st2 == "ok" and "cost0" in rec2 and rec2["cost_x"] > rec2["cost0"] * (1 + 1e-9) + 1e-18:
+                ck.fail(f"squared deviation grew when the refined droplet was refined again: {rec2['cost0']} -> {rec2['cost_x']}",
+                        {**sig, "check": "refine_cost_monotone", "second": True}, {**case, "candidate": str(out)})
         # ---------------- the property on the real result
         want_cls = cname if isinstance(cand0, DiffuseDroplet) else "DiffuseDroplet"
         if type(out).__name__ != want_cls:
